@@ -13,13 +13,13 @@ from core import err_kind
 ID = "C09"
 MODEL_OP = "rebin_coords"
 RULE = ("cubes of 1-4 dims with divisor-rich shapes over the exact probe family (separable / coupled), FITS (separable, "
-        "celestial, rotated) and gWCS-table WCS; 0-3 extra coords (Quantity / Time / 1-D SkyCoord tables, linear and "
-        "non-linear content) on binned and unbinned axes; every divisor bin shape; optionally a slice or a first rebin "
-        "before the rebin under test. Non-trivial = some factor > 1; distinct = the whole case")
+        "celestial, rotated) and gWCS-table WCS; 0-3 extra coords (Quantity / Time / 1-D SkyCoord tables, a meshed SkyCoord table over two axes, linear and "
+        "non-linear content) on binned and unbinned axes; every divisor bin shape; optionally the cube under test is a proper "
+        "slice (offsets 0-2) of a larger cube, or the result of a first rebin. Non-trivial = some factor > 1; distinct = the whole case")
 TRUSTED = ["the source cube's own WCS / numpy.interp on the source tables are the references"]
 ASSUMPTIONS = ["lookup-table edges are not compared (a table has no value at -1/2); table centres are",
                "Time tables are compared in MJD at 1e-9 d, real WCS values at rtol 1e-9"]
-SHAPES = [[4], [6], [4, 6], [6, 4], [2, 6], [3, 4], [2, 6, 4], [4, 2, 3], [2, 3, 4, 2]]
+SHAPES = [[4], [6], [4, 6], [6, 4], [2, 6], [3, 4], [4, 4], [6, 6], [2, 6, 4], [4, 2, 3], [4, 3, 4], [2, 3, 4, 2]]
 
 
 def corpus():
@@ -33,15 +33,48 @@ def divisors(n):
 def generate(rng, tier):
     n = 500 if tier == "quick" else 30000
     for _ in range(n):
-        shape = rng.choice(SHAPES)
+        shape = list(rng.choice(SHAPES))
         bins = [rng.choice(divisors(s)) for s in shape]
         ecs = []
         for _ in range(rng.choice([0, 1, 1, 2, 3])):
             ecs.append({"axis": rng.randrange(len(shape)), "kind": rng.choice(["quantity", "quantity", "time", "sky"]),
                         "nonlinear": rng.random() < 0.5})
-        pre = rng.choice([None, None, "slice", "rebin"])
+        pre = rng.choice([None, None, "slice", "slice", "rebin"])
+        if len(shape) >= 2 and rng.random() < 0.2:
+            # a meshed SkyCoord table over two array axes (its two components need equal lengths when it is
+            # built; a pre-slice then gives the two axes different lengths and offsets)
+            a0, a1 = sorted(rng.sample(range(len(shape)), 2))
+            if shape[a0] != shape[a1]:
+                pre = "slice"
+            elif pre == "rebin":
+                pre = None
+            ecs.append({"axis": [a0, a1], "kind": "skymesh", "nonlinear": rng.random() < 0.5})
+            if rng.random() < 0.85:
+                # rebinned lengths equal on the two axes (unequal ones are refused: known finding)
+                cands = [(b0, b1) for b0 in divisors(shape[a0]) for b1 in divisors(shape[a1]) if shape[a0] // b0 == shape[a1] // b1]
+                bins[a0], bins[a1] = rng.choice(cands)
         yield {"shape": shape, "bins": bins, "fam": rng.choice(["probe", "probe_coupled", "fits_sep", "fits_cel", "fits_rot", "gwcs"]),
-               "wseed": rng.randrange(10**6), "ecs": ecs, "pre": pre}
+               "wseed": rng.randrange(10**6), "ecs": ecs, "pre": pre, "pad_seed": rng.randrange(10**6)}
+
+
+def padding(case):
+    """(offset, tail) per axis of the cube that is built when the cube under test is a slice of it:
+    axis a of the built cube has offset + shape[a] + tail entries, and the axes of a meshed table equal lengths."""
+    nd = len(case["shape"])
+    if case["pre"] != "slice":
+        return [0] * nd, [0] * nd
+    if "pad_seed" not in case:                       # corpus entries from before padding existed
+        return [0] * nd, [0] * nd
+    r = random.Random(case["pad_seed"])
+    off = [r.choice([0, 1, 2]) for _ in range(nd)]
+    tail = [r.choice([0, 0, 1]) for _ in range(nd)]
+    for ec in case["ecs"]:
+        if ec["kind"] == "skymesh":
+            a0, a1 = ec["axis"]
+            L = max(off[a] + case["shape"][a] + tail[a] for a in (a0, a1))
+            for a in (a0, a1):
+                tail[a] = L - off[a] - case["shape"][a]
+    return off, tail
 
 
 def table_values(kind, n, nonlinear, k):
@@ -53,11 +86,19 @@ def table_values(kind, n, nonlinear, k):
 def build(case):
     from ndcube import NDCube
     rng = random.Random(case["wseed"])
-    shape = tuple(case["shape"])
+    off, tail = padding(case)
+    shape = tuple(o + s + t for o, s, t in zip(off, case["shape"], tail))
     wcs = W.make_wcs(rng, shape, case["fam"], True)
     cube = NDCube(C.payload(shape, 0), wcs=wcs)
     tabs = []
     for k, ec in enumerate(case["ecs"]):
+        if ec["kind"] == "skymesh":
+            n = shape[ec["axis"][0]]
+            v = table_values(ec["kind"], n, ec["nonlinear"], k)
+            cube.extra_coords.add((f"lon{k}", f"lat{k}"), tuple(ec["axis"]),
+                                  SkyCoord(v * u.deg / 10, (v / 2 - 5 + np.arange(n) % 2) * u.deg / 10, frame="icrs"), mesh=True)
+            tabs.append(v)
+            continue
         n = shape[ec["axis"]]
         v = table_values(ec["kind"], n, ec["nonlinear"], k)
         if ec["kind"] == "quantity":
@@ -70,6 +111,11 @@ def build(case):
     return cube, tabs
 
 
+def pre_item(case):
+    off, _ = padding(case)
+    return tuple(slice(o, o + s) for o, s in zip(off, case["shape"]))
+
+
 def ec_tables(cube):
     """name -> (axis, numeric arrays) for every lookup-table extra coord of the cube"""
     out = []
@@ -77,6 +123,9 @@ def ec_tables(cube):
         t = coord.table
         if isinstance(t, Time):
             arrs = [(t.mjd - 58849.0) * 1440.0]           # minutes since 2020-01-01
+        elif isinstance(t, SkyCoord) and getattr(coord, "mesh", False):
+            # a meshed table keeps its slice lazily; one component per array axis
+            arrs = [np.asarray(c.to_value(u.deg)) * 10 for c in coord._sliced_components]
         elif isinstance(t, SkyCoord):
             arrs = [t.spherical.lon.deg * 10, t.spherical.lat.deg * 10]
         else:
@@ -99,9 +148,8 @@ def run(case):
         cube, _ = build(case)
         src = cube
         if case["pre"] == "slice":
-            item = tuple(slice(0, s) if s % 2 else slice(0, s) for s in cube.data.shape)
-            # keep divisibility: drop nothing, but go through the slicing code path (sliced WCS, sliced tables)
-            src = cube[item]
+            # the cube under test is a proper slice (offsets 0-2, tails 0-1) of a larger cube
+            src = cube[pre_item(case)]
         elif case["pre"] == "rebin":
             first = [2 if s % 4 == 0 else 1 for s in cube.data.shape]
             src = cube.rebin(tuple(first))
@@ -114,7 +162,10 @@ def run(case):
             out = src.rebin(tuple(bins))
         except Exception as e:
             res["impl"]["err"] = err_kind(e)
-            fails.append(f"rebin{tuple(bins)} raised {type(e).__name__}: {str(e)[:120]}")
+            mesh_unequal = any(ec["kind"] == "skymesh" and shape[ec["axis"][0]] // bins[ec["axis"][0]] != shape[ec["axis"][1]] // bins[ec["axis"][1]]
+                               for ec in case["ecs"])
+            fails.append(("[meshed SkyCoord extra coord, rebinned lengths differ] " if mesh_unequal else "") +
+                         f"rebin{tuple(bins)} raised {type(e).__name__}: {str(e)[:120]}")
             raise StopIteration
         if any(b > 1 for b in bins):
             res["nontrivial"] = repr(sorted(case.items(), key=str))
@@ -155,16 +206,17 @@ def run(case):
                 for (ax, names, sa), (ax2, _, oa) in zip(st, ot):
                     if ax != ax2:
                         fails.append(f"extra coord {names} moved from axis {ax} to {ax2}"); break
-                    f = bins[ax]
-                    n = shape[ax]
-                    grid = np.arange(n // f) * f + (f - 1) / 2
-                    for s_arr, o_arr in zip(sa, oa):
+                    for ci, (s_arr, o_arr) in enumerate(zip(sa, oa)):
+                        a = ax[ci] if isinstance(ax, tuple) else ax        # meshed: one component per axis
+                        f = bins[a]
+                        n = shape[a]
+                        grid = np.arange(n // f) * f + (f - 1) / 2
                         want = np.interp(grid, np.arange(n), s_arr)
                         if np.asarray(o_arr).shape != want.shape or not np.allclose(o_arr, want, rtol=1e-9, atol=1e-7):
                             fails.append(f"extra coord {names} on axis {ax}: rebinned table {np.round(o_arr, 6).tolist()} != source "
                                          f"interpolated at block centres {np.round(want, 6).tolist()}")
                             break
-                    ecobs.append({"axis": int(ax), "src": [list(map(float, a)) for a in sa], "out": [list(map(float, a)) for a in oa]})
+                    ecobs.append({"axis": list(ax) if isinstance(ax, tuple) else int(ax), "src": [list(map(float, a)) for a in sa], "out": [list(map(float, a)) for a in oa]})
                     if fails:
                         break
         res["obs"] = {"world": world, "probes": probes_f, "ecs": ecobs, "shape": list(shape), "bins": bins}
@@ -195,7 +247,7 @@ def unfrac(t):
 def source_of(case):
     cube, _ = build(case)
     if case["pre"] == "slice":
-        return cube[tuple(slice(0, s) for s in cube.data.shape)]
+        return cube[pre_item(case)]
     if case["pre"] == "rebin":
         return cube.rebin(tuple(2 if s % 4 == 0 else 1 for s in cube.data.shape))
     return cube
@@ -216,8 +268,8 @@ def compare(case, r, m):
             return f"world at {p}: implementation {got} vs model terms {want}"
     grids = [[unfrac(x) for x in g] for g in m["grids"]]
     for ec in o["ecs"]:
-        g = grids[ec["axis"]]
-        for s_arr, o_arr in zip(ec["src"], ec["out"]):
+        for ci, (s_arr, o_arr) in enumerate(zip(ec["src"], ec["out"])):
+            g = grids[ec["axis"][ci] if isinstance(ec["axis"], list) else ec["axis"]]
             want = np.interp(g, np.arange(len(s_arr)), s_arr)
             if len(want) != len(o_arr) or not np.allclose(o_arr, want, rtol=1e-9, atol=1e-7):
                 return f"extra coord on axis {ec['axis']}: table {o_arr} vs table at the model's grid {g}: {want.tolist()}"
@@ -225,6 +277,8 @@ def compare(case, r, m):
 
 
 def signature(case, failure):
+    if failure.startswith("[meshed SkyCoord extra coord, rebinned lengths differ]") and "must all be same shape" in failure:
+        return "meshed-skycoord-rebin:unequal-output-lengths-refused"
     return "other:" + failure[:60]
 
 
